@@ -865,6 +865,41 @@ def consistent_tagging(ptx, inp=None, bpt_s=None):
     return True
 
 
+def labelled_rows(inp, f, err):
+    """independent statement of what a Pretext piece `f` holds when it is labelled: the rows of its input scaffold whose scaffold span
+    meets [f.start, f.end], terminal gap rows stripped, then trim_large_overhangs(err).  Returns (length, [(name, start, end) of the
+    contig rows]) or None when nothing is matched."""
+    sc = next((s for s in inp if s["name"] == f["name"]), None)
+    if sc is None:
+        return None
+    spans, p = [], 0
+    for r in sc["rows"]:
+        ln = flen(r)
+        spans.append((p + 1, p + ln, r)); p += ln
+    hit = [x for x in spans if x[1] >= x[0] and x[0] <= f["end"] and x[1] >= f["start"]]
+    while hit and hit[0][2]["t"] == "G":
+        hit.pop(0)
+    while hit and hit[-1][2]["t"] == "G":
+        hit.pop()
+    if not hit:
+        return None
+    blen = f["end"] - f["start"] + 1
+    def ov(x):
+        return max(0, min(x[1], f["end"]) - max(x[0], f["start"]) + 1)
+    if not (len(hit) == 1 and blen > err):
+        if f["start"] - hit[0][0] > err and ov(hit[0]) < err:
+            hit.pop(0)
+            while hit and hit[0][2]["t"] == "G":
+                hit.pop(0)
+        if hit and hit[-1][1] - f["end"] > err and ov(hit[-1]) < err:
+            hit.pop()
+            while hit and hit[-1][2]["t"] == "G":
+                hit.pop()
+    if not hit:
+        return None
+    return (hit[-1][1] - hit[0][0] + 1, [(x[2]["name"], x[2]["start"], x[2]["end"]) for x in hit if x[2]["t"] == "F"])
+
+
 def oracle_names(inp, ptx, res, prefix="SUPER_", single_hap=True, bpt_s=None):
     """C10"""
     errs = []
@@ -942,6 +977,32 @@ def oracle_names(inp, ptx, res, prefix="SUPER_", single_hap=True, bpt_s=None):
         for base, ns in ul.items():
             if sorted(ns) != list(range(1, len(ns) + 1)):
                 errs.append(f"unlocs of {base} not numbered 1..m: {sorted(ns)}")
+        # unlocs of one chromosome are numbered longest first.  "Length" is the length of the rows the piece matched when it was
+        # labelled: the rows of the input scaffold meeting the piece, terminal gaps stripped, after trim_large_overhangs (independent
+        # re-statement below); later resolution / cutting may shorten them, so the FINAL lengths need not be monotone.
+        if bpt_s is not None:
+            errL = 1 + math.floor(Fraction(bpt_s))
+            upieces = [(ps["name"], f) for ps in ptx for f in ps["rows"] if f["t"] == "F" and "Unloc" in f["tags"]]
+            if upieces:
+                matched = {id(f): labelled_rows(inp, f, errL) for _, f in upieces}
+                byname = {}
+                for s_ in scs:
+                    if "_unloc_" in s_["name"] and s_["rank"] in (1, 2):
+                        base, n_ = s_["name"].rsplit("_unloc_", 1)
+                        if not n_.isdigit():
+                            continue
+                        frs = [(r["name"], r["start"], r["end"]) for r in s_["rows"] if r["t"] == "F"]
+                        # the piece this scaffold came from: the one whose matched rows contain all its contigs (by name and interval)
+                        cands = [f for _, f in upieces if matched[id(f)] is not None and frs and
+                                 all(any(m[0] == x[0] and m[1] <= x[1] and x[2] <= m[2] for m in matched[id(f)][1]) for x in frs)]
+                        if len(cands) == 1:
+                            byname.setdefault((base, s_["original_name"]), []).append((int(n_), matched[id(cands[0])][0], s_["name"]))
+                for key_, lst in byname.items():
+                    lst.sort()
+                    lens = [x[1] for x in lst]
+                    nums = [x[0] for x in lst]
+                    if nums == list(range(1, len(nums) + 1)) and lens != sorted(lens, reverse=True):
+                        errs.append(f"unlocs of {key_[0]} not numbered longest first (matched lengths when labelled, in name order: {lens})")
         for s in scs:
             if s["rank"] == 2 and not s["name"].startswith(prefix):
                 errs.append(f"name-tagged scaffold {s['name']} lacks the prefix")
